@@ -1137,7 +1137,7 @@ def gen_match_function(rng, name, hist=None):
 
     def fresh_names():
         out = []
-        for _ in range(8):
+        for _ in range(24):
             counter[0] += 1
             out.append(f"c{counter[0]}")
         return out
